@@ -21,6 +21,15 @@ def run(tier):
     r = vf.tlc("ApplyMC", "Apply.c09.cfg", defines=mc, workers=8, heap="8g", timeout=1800)
     if not r.ok:
         raise vf.Infra("Apply.tla violates its own properties (specification bug): %s\n%s" % (r.violated, r.error_trace[:3000]))
+    # liveness half of "resumes after any failure": K faults, K + 1 whole-directory runs, fair scheduling => everything applied for good
+    live = dict(MaxF=mc["MaxF"], MaxS=mc["MaxS"], MaxFaults=mc["MaxFaults"], MaxRuns=mc["MaxFaults"] + 1)
+    rl = vf.tlc("ApplyMC", "Apply.live.cfg", defines=live, workers=8, heap="8g", timeout=1800)
+    if not rl.ok:
+        raise vf.Infra("Apply.tla violates its liveness property Resumes (specification bug): %s\n%s" % (rl.violated, rl.error_trace[:3000]))
+    # the property is not vacuous: one run too few and TLC produces the behaviour that stays pending
+    rv = vf.tlc("ApplyMC", "Apply.live.cfg", defines=dict(MaxF=2, MaxS=2, MaxFaults=2, MaxRuns=2), workers=4, heap="2g", timeout=600)
+    if "temporal" not in rv.violated:
+        raise vf.Infra("Apply.live.cfg is vacuous: Resumes holds although the runs cannot absorb the faults")
     d, trace, cases, info = applyapi.record("c09", args)
     try:
         byid = {c["id"]: c for c in cases}
@@ -48,7 +57,8 @@ def run(tier):
         v.cov = {"states": r.distinct, "transitions": r.generated, "traces_validated_against_impl": len(cases) - len(percase),
                  "events": events, "executions": len(cases), "exhaustive": tier == "quick",
                  "spec_states_visited_by_impl_traces_min": visited, "spec_states_reachable": r.distinct,
-                 "model": mc, "harness_args": args, "conformance_accepted_events": accepted, "conformance_incomplete": more,
+                 "model": mc, "harness_args": args, "liveness": {"config": "Apply.live.cfg", "property": "Resumes", "model": live,
+                                                                  "states": rl.distinct, "vacuity_probe_violated": True}, "conformance_accepted_events": accepted, "conformance_incomplete": more,
                  "explanation": "exhaustive TLC run of Apply.tla; every fault plan replayed on the real Executor, monitored and conformance-checked by TLC"}
         v.samples = [{"case": {k: cases[i][k] for k in ("shape", "exec_faults", "write_faults", "n", "runs")},
                       "events": applyapi.events_of(trace, cases[i], 12)} for i in (len(cases) // 3, len(cases) - 1)]
